@@ -423,3 +423,68 @@ theorem streamSMFull_text (t : Text) (sm : SMap) (h : TextOK t) : evsText (strea
     rw [hfin, splitLines_join]
 
 end Rs
+
+namespace Rs
+
+theorem emitted_whole_line (lines : List Text) (h : WFLines lines) (a : Nat) (h1 : 1 ≤ a) (hn : a ≤ lines.length) :
+    emitted lines a 0 ++ lines.getD (a - 1) [] = emitted lines (a + 1) 0 := by
+  have := smWholeLines_spec lines h 1 a (a + 1) (by omega) h1 (by omega)
+  rw [smWholeLines_step lines a (a + 1) (by omega), smWholeLines_nil lines (a + 1) (a + 1) (Nat.le_refl _)] at this
+  simpa [hn, evsText_singleton, Ev.text] using this
+
+theorem smLinesFullGo_spec (lines : List Text) (h : WFLines lines) : ∀ (ms : List Mapping) (cur : Nat), 1 ≤ cur → cur ≤ lines.length + 1 →
+    emitted lines cur 0 ++ evsText (smLinesFullGo lines cur ms).1 = emitted lines (smLinesFullGo lines cur ms).2 0
+    ∧ 1 ≤ (smLinesFullGo lines cur ms).2 ∧ (smLinesFullGo lines cur ms).2 ≤ lines.length + 1 := by
+  intro ms
+  induction ms with
+  | nil => intro cur h1 h2; exact ⟨by simp [smLinesFullGo, evsText_nil], h1, h2⟩
+  | cons m rest ih =>
+    intro cur h1 h2
+    simp only [smLinesFullGo]
+    cases ho : m.orig with
+    | none => simpa [ho] using ih cur h1 h2
+    | some o =>
+      simp only [ho]
+      by_cases hskip : (decide (m.gl < cur) || decide (m.gl > lines.length)) = true
+      · simp only [hskip, if_true]; exact ih cur h1 h2
+      · simp only [hskip, Bool.false_eq_true, if_false]
+        have hge : cur ≤ m.gl := by simp at hskip; omega
+        have hle : m.gl ≤ lines.length := by simp at hskip; omega
+        have hmax : max cur m.gl = m.gl := by omega
+        obtain ⟨e, l, u⟩ := ih (max cur m.gl + 1) (by omega) (by omega)
+        refine ⟨?_, l, u⟩
+        simp only [evsText_append, evsText_cons, Ev.text]
+        rw [← List.append_assoc, ← List.append_assoc, smWholeLines_spec lines h _ cur m.gl rfl h1 hge, hmax]
+        rw [emitted_whole_line lines h m.gl (by omega) hle]
+        simpa [hmax] using e
+
+/-- C01 for a SourceMapSource streamed without columns, for ANY attached map -/
+theorem streamSMLinesFull_text (t : Text) (sm : SMap) (h : TextOK t) : evsText (streamSMLinesFull t sm).evs = t := by
+  unfold streamSMLinesFull
+  by_cases he : (splitLines t).isEmpty = true
+  · simp only [he, if_true, evsText_nil]
+    have : splitLines t = [] := by simpa using he
+    have hj := splitLines_join t
+    rw [this] at hj; simpa using hj.symm
+  · simp only [he, Bool.false_eq_true, if_false, evsText_append, smSourceEvs_notext, List.nil_append]
+    have hw := wfLines_of_textOK t h
+    obtain ⟨e, l, u⟩ := smLinesFullGo_spec (splitLines t) hw (decode sm.mappings) 1 (by omega) (by omega)
+    have hinit : emitted (splitLines t) 1 0 = [] := by
+      unfold emitted lineAt
+      have hs : startsOK ((splitLines t).getD 0 []) := by
+        cases hx : (splitLines t)[0]? with
+        | none => intro b rest hh; simp [List.getD_eq_getElem?_getD, hx] at hh
+        | some ln => simpa [List.getD_eq_getElem?_getD, hx] using hw.starts ln (List.mem_of_getElem? hx)
+      simp only [Nat.sub_self, List.take_zero, List.flatten_nil, List.nil_append]
+      rw [cpos_zero _ hs]; simp
+    rw [hinit, List.nil_append] at e
+    rw [e, smWholeLines_spec (splitLines t) hw _ _ ((splitLines t).length + 1) rfl l u,
+      emitted_beyond _ _ _ (by omega), splitLines_join]
+
+/-- C01 for a SourceMapSource leaf without inner map, both column settings -/
+theorem streamSM_text (t : Text) (sm : SMap) (c : Bool) (h : TextOK t) : evsText (streamSM t sm ⟨c, false⟩).evs = t := by
+  cases c
+  · exact streamSMLinesFull_text t sm h
+  · exact streamSMFull_text t sm h
+
+end Rs
